@@ -178,17 +178,17 @@ Proof. exact FileLoadProofs.sixel_epilogue_ok. Qed.
 
 (* ALL eight text loaders (ans/ice/diz/unknown, avt, pcb, asc, msg, an1-an9, seq, ata), every SAUCE record, every character
    list: a buffer - or, for the five loaders with an ANSI parser inside, the macro-nesting overflow; never a panic *)
-Theorem text_load_total : forall f s fw fh done cs, FileLoadProofs.fsauce_nonneg s -> FileLoadProofs.SixelOk fw fh done ->
-  match FileLoad.text_load f s fw fh done cs with
-  | FileLoad.TOk _ _ => True
+Theorem text_load_total : forall f s fw fh done serr cs, FileLoadProofs.fsauce_nonneg s -> FileLoadProofs.SixelOk fw fh done ->
+  match FileLoad.text_load f s fw fh done serr cs with
+  | FileLoad.TOk _ _ | FileLoad.TErr => True
   | FileLoad.TPanic _ => False
   | FileLoad.TOverflow => FileLoadProofs.text_overflow f s cs
   end.
 Proof. exact FileLoadProofs.text_load_total_proof. Qed.
 (* ASCII, PETSCII (seq) and ATASCII files: no exception *)
-Theorem text_load_no_ansi_total : forall f s fw fh done cs,
+Theorem text_load_no_ansi_total : forall f s fw fh done serr cs,
   (f = FileLoad.TAsc \/ f = FileLoad.TSeq \/ f = FileLoad.TAta) -> FileLoadProofs.fsauce_nonneg s -> FileLoadProofs.SixelOk fw fh done ->
-  exists t l, FileLoad.text_load f s fw fh done cs = FileLoad.TOk t l.
+  (exists t l, FileLoad.text_load f s fw fh done serr cs = FileLoad.TOk t l) \/ FileLoad.text_load f s fw fh done serr cs = FileLoad.TErr.
 Proof. exact FileLoadProofs.text_load_standalone_total. Qed.
 
 (* Known 2 (= C01-stackoverflow:invoke_macro_by_id reached through a file): the content stores a macro that invokes itself.
@@ -196,7 +196,7 @@ Proof. exact FileLoadProofs.text_load_standalone_total. Qed.
    >= 2^30 or >= 2^31 - the epilogue divides by the font size, multiplies the cursor by it, makes a layer of that many cells. *)
 Definition KnownC02_2 := FileMacroCrash.
 Definition KnownC02_3 (fw fh : Z) (done : list FileLoad.sixel) : Prop := ~ FileLoadProofs.SixelOk fw fh done.
-Theorem known_2_witness : FileLoad.text_load FileLoad.TAns None 8 16 [] FileLoadProofs.macro_bomb = FileLoad.TOverflow.
+Theorem known_2_witness : FileLoad.text_load FileLoad.TAns None 8 16 [] false FileLoadProofs.macro_bomb = FileLoad.TOverflow.
 Proof. exact FileLoadProofs.macro_overflow_witness. Qed.
 Theorem known_3_witness :
   FileLoad.sixel_epilogue 0 16 [FileLoad.mkSx 0 0 4 6] = TermCore.RPanic FileLoad.SITE_SIXEL_DIV /\
@@ -254,15 +254,15 @@ Proof. vm_compute. reflexivity. Qed.
 (* text loaders: the inputs of fix d135f2b (cursor up in row 0, then insert / delete line) load; a SAUCE record of height 0 is fine;
    `A LF B` gives two rows; a file that is only a macro bomb is the overflow class *)
 Example ans_cursor_up_insert_line :
-  match FileLoad.text_load FileLoad.TAns None 8 16 [] [27; 91; 65; 27; 91; 76]%Z with FileLoad.TOk t [] => TermCore.bh t = 1%Z | _ => False end.
+  match FileLoad.text_load FileLoad.TAns None 8 16 [] false [27; 91; 65; 27; 91; 76]%Z with FileLoad.TOk t [] => TermCore.bh t = 1%Z | _ => False end.
 Proof. vm_compute. reflexivity. Qed.
 Example ata_cursor_up_delete_line :
-  match FileLoad.text_load FileLoad.TAta None 8 16 [] [28; 156]%Z with FileLoad.TOk t [] => TermCore.bh t = 24%Z | _ => False end.
+  match FileLoad.text_load FileLoad.TAta None 8 16 [] false [28; 156]%Z with FileLoad.TOk t [] => TermCore.bh t = 24%Z | _ => False end.
 Proof. vm_compute. reflexivity. Qed.
 Example ans_sauce_height_0 :
-  match FileLoad.text_load FileLoad.TAns (Some (FileLoad.mkFS 0 0 true)) 8 16 [] [65; 10; 66]%Z with
+  match FileLoad.text_load FileLoad.TAns (Some (FileLoad.mkFS 0 0 true)) 8 16 [] false [65; 10; 66]%Z with
   | FileLoad.TOk t [] => (TermCore.bw t, TermCore.bh t, TermCore.th t) = (80, 2, 0)%Z | _ => False end.
 Proof. vm_compute. reflexivity. Qed.
 Example ans_with_sixel_layer :
-  match FileLoad.text_load FileLoad.TAns None 8 16 [FileLoad.mkSx 0 0 4 6] [65]%Z with FileLoad.TOk t [(1, 1)%Z] => TermCore.bh t = 1%Z | _ => False end.
+  match FileLoad.text_load FileLoad.TAns None 8 16 [FileLoad.mkSx 0 0 4 6] false [65]%Z with FileLoad.TOk t [(1, 1)%Z] => TermCore.bh t = 1%Z | _ => False end.
 Proof. vm_compute. reflexivity. Qed.
